@@ -654,6 +654,10 @@ class ValueMapping:
             raise ValueError(
                 _format("The value-mapped {0} has no Values qualifier "
                         "defined", vm._element_str()))
+        if values_qual.value is None:
+            raise ModelError(
+                _format("The value-mapped {0} has a Values qualifier with "
+                        "value NULL", vm._element_str()))
         values_list = list(values_qual.value)  # may be modified
 
         valuemap_qual = element_obj.qualifiers.get('ValueMap', None)
@@ -662,6 +666,12 @@ class ValueMapping:
             valuemap_list = [f"{v}" for v in range(0, len(values_list))]
         else:
             valuemap_list = valuemap_qual.value
+            if valuemap_list is None or \
+                    not all(isinstance(v, str) for v in valuemap_list):
+                raise ModelError(
+                    _format("The value-mapped {0} has a ValueMap qualifier "
+                            "that is NULL or has NULL items: {1!A}",
+                            vm._element_str(), valuemap_list))
 
         # Verify and adjust the valuemap and values arrays
         values_size = len(values_list)
